@@ -22,7 +22,8 @@ def _val_at(name, kw, arr, from_end=1):
 
 
 def _job(args):
-    names, quick, lmin = args
+    names, quick, lmin = args[:3]
+    boundary = len(args) > 3 and args[3]      # separate jobs: input exactly as long as (and one longer than) the largest window
     fs = dict(indreg.functions())
     st = indreg.stems(480)
     st2 = indreg.stems(480, base=50.0)
@@ -43,7 +44,11 @@ def _job(args):
         seqable = indreg.has(f, 'sequential')
         var = indreg.variants(name, f)
         plans = [(vn, dict(kw), 'close') for vn, kw in var.items()]
-        if indreg.has(f, 'source_type'):
+        if boundary:
+            plans = [p for p in plans if p[0] == 'large']
+            W = max([v for p in plans for v in p[1].values() if isinstance(v, int)] + [0])
+            lengths = [W, W + 1] if W >= 40 else []
+        elif indreg.has(f, 'source_type'):
             srcs = indreg.SOURCES[1:] if not quick else ['high', 'volume', 'hlc3']
             plans += [('default', {'source_type': s}, s) for s in srcs]
         any_ok = False
@@ -116,6 +121,19 @@ def run(ctx):
     first = core.pmap_isolated(_job, jobs)
     retry = [([j[0][0]], j[1], 200) for j, (st, r) in zip(jobs, first) if st != 'ok']
     second = dict(zip([j[0][0] for j in retry], core.pmap_isolated(_job, retry)))
+    bjobs = [([n], ctx.quick, 0, True) for n in names]
+    for j, (st, r) in zip(bjobs, core.pmap_isolated(_job, bjobs)):
+        if st != 'ok':
+            crashed.append('%s: %s on an input exactly as long as its window' % (j[0][0], r))
+            continue
+        cov['transitions'] += r['n']
+        ctx.count('raised', r['raised'])
+        ctx.count('boundary-length-evaluations', r['n'])
+        for v in r['viols']:
+            v = Violation.from_json(v)
+            if v.sigkey() not in sigs:
+                sigs.add(v.sigkey())
+                ctx.add(v)
     for j, (st, r) in zip(jobs, first):
         if st != 'ok':
             crashed.append('%s: %s on short inputs; retried with lengths >= 200' % (j[0][0], r))
@@ -147,4 +165,5 @@ def run(ctx):
 
 def replay(case, ctx):
     r = _job(([case['indicator']], False, 0))
-    return [Violation.from_json(v) for v in r['viols']]
+    rb = _job(([case['indicator']], False, 0, True))
+    return [Violation.from_json(v) for v in r['viols'] + rb['viols']]
